@@ -16,6 +16,14 @@ pub struct DS {
     a: u8,
     #[darling(default)]
     b: Option<String>,
+    /// nested receiver: errors at two depths
+    #[darling(default)]
+    n: Option<DN>,
+}
+#[derive(Debug, FromMeta, PartialEq)]
+pub struct DN {
+    c: u8,
+    d: u8,
 }
 #[derive(Debug, FromMeta, PartialEq)]
 pub enum DE {
@@ -95,8 +103,12 @@ impl<T: W12> W12 for Override<T> {
         }
     }
 }
+/// Signature of an error: its own (unflattened) rendering and leaf count, then every leaf with
+/// its span. "T's error" means the same tree, not only the same leaves.
 fn leaves(e: &darling::Error) -> Vec<String> {
-    e.clone().flatten().into_iter().map(|l| format!("{l} @{:?}", l.explicit_span().and_then(vrt::spans::cols))).collect()
+    let mut v = vec![format!("whole: {e} len={}", e.len())];
+    v.extend(e.clone().flatten().into_iter().map(|l| format!("{l} @{:?}", l.explicit_span().and_then(vrt::spans::cols))));
+    v
 }
 impl<T: W12> W12 for darling::Result<T> {
     fn carried(&self) -> Carried {
@@ -110,7 +122,7 @@ impl<T: W12> W12 for Result<T, syn::Meta> {
     fn carried(&self) -> Carried {
         match self {
             Ok(v) => v.carried(),
-            Err(m) => Carried::OriginalMeta(m.to_token_stream().to_string()),
+            Err(m) => Carried::OriginalMeta(format!("{m:?}")),
         }
     }
 }
@@ -240,7 +252,7 @@ fn expect(chain: &[Wk], m: &syn::Meta, inner: &Outcome) -> Outcome {
                 },
                 Wk::MR => match rest {
                     Ok(c) => Ok(c),
-                    Err(_) => Ok(Carried::OriginalMeta(m.to_token_stream().to_string())),
+                    Err(_) => Ok(Carried::OriginalMeta(format!("{m:?}"))),
                 },
             }
         }
@@ -258,7 +270,7 @@ fn expect_none(chain: &[Wk], inner: &Option<Carried>) -> Option<Carried> {
 
 pub fn metas() -> Vec<(String, syn::Meta)> {
     let texts = [
-        "v", "a::b", "::v", "v()", "v(a)", "v(a = 1)", "v(zz)", "v(a = \"x\")", "v(a = 300)", "v(a = 1, b = \"s\")", "v(uno)", "v(duo = 4)", "v(duo = \"x\")", "v(k = \"s\", j = \"t\")", "v(k = \"s\", k = \"t\")",
+        "v", "a::b", "::v", "v()", "v(a)", "v(a = 1)", "v(zz)", "v(a = \"x\")", "v(a = 300)", "v(a = 1, b = \"s\")", "v(uno)", "v(duo = 4)", "v(duo = \"x\")", "v(k = \"s\", j = \"t\")", "v(k = \"s\", k = \"t\")", "v(a = \"x\", n(c = \"y\", d = \"z\"))", "v(a = 1, n(c = 2, zz))", "v(zz, n(), b = 5)", "v(a = 1, n(c = 2, d = 3))",
         "v(a::b, c)", "v = true", "v = \"s\"", "v = \"5\"", "v = \"uno\"", "v = \"a::b\"", "v = \"1 +\"", "v = 5", "v = -3", "v = 300", "v = 'c'", "v = 1.5", "v = a::b", "v = a", "v = 1 + 2",
         "v = [1, 2]", "v = 0..5", "v = |x| x", "v = (a + b)", "v = (5)", "v = ((a))", "v = (a, b)", "v = { 1 }", "v = -x", "v = &x", "v = (\"s\")", "v = (true)",
     ];
@@ -360,7 +372,8 @@ fn span_and_original(t: &mut Tally) {
                 if let Ok(v) = <WithOriginal<$ty, syn::Meta>>::from_meta(&m) {
                     t.evaluations += 1;
                     t.hit("with_original_checked");
-                    if v.original.to_token_stream().to_string() != m.to_token_stream().to_string() {
+                    // structural identity (the Debug rendering shows invisible groups and spans, token text does not)
+                    if format!("{:?}", v.original) != format!("{m:?}") {
                         t.violate(Violation { key: format!("C12 WithOriginal<{}> item=`{label}` original differs", stringify!($ty)), what: format!("WithOriginal<{}> <- `{label}`: original is `{}`", stringify!($ty), v.original.to_token_stream()), case: json!({"item": label}), detail: json!({}) });
                     }
                 }
